@@ -345,10 +345,18 @@ def conds(tier):
                         builds=("C",), budget=300, family="batch-free programs: 3-slot nested structures, result() "
                         "style return", encodes=ENC))
     else:
-        T = [0, 2, 3, 4, 5, 6, 7, 8, 9, 10, 11, 12, 13, 15]
-        out.append(Cond("prog", mk(T), params(len(T)), pin=4, builds=("C",), budget=3000,
-                        family="batch-free programs: 14 templates x 9 slot kinds^3 x guards x entry", encodes=ENC,
+        T = [4, 6, 2]
+        out.append(Cond("prog2", mk(T), params(len(T)), pin=4, builds=("C",), budget=3000,
+                        family="batch-free programs: list/dict/tuple of 2 slots x 11 slot kinds x guards x 4 entries x "
+                               "result() x synchronous call", encodes=ENC,
                         extra_pre=["_hm.core.unused_ok(%r, t, [s0, s1, s2])" % (T,)]))
+        T3 = [5, 3, 13, 15]
+        out.append(Cond("prog3", mk(T3), params(len(T3), menu=AMENU, g0=0, g1=2, entry=1, res=True, sc=False), pin=4,
+                        builds=("C",), budget=3000, family="batch-free programs: 3-slot nested structures", encodes=ENC))
+        TE = [0, 1, 8, 9, 10, 11, 12, 16]
+        out.append(Cond("prog1", mk(TE), params(len(TE), menu=AMENU, g0=0, g1=2, entry=3, res=False, sc=False), pin=2,
+                        builds=("C",), budget=900, family="batch-free programs: single-slot and empty structures",
+                        encodes=ENC, extra_pre=["_hm.core.unused_ok(%r, t, [s0, s1, s2])" % (TE,)]))
     return out
 
 
